@@ -109,6 +109,11 @@ def stepInt (s : St) (ws : List String) : St × String :=
     match k.toNat?, parseExpr rest with
     | some k, some (e, []) => if e.isActive then doAssign s k e else (s, "bad-op")
     | _, _ => (s, "bad-op")
+  -- `prealloc s|o <n> [m|f]`: Stack::preallocate_statements / preallocate_operations (member or free function) record
+  -- nothing and change no gradient: the protocol state is untouched (the buffer sizes are the `recbuf` family's business)
+  | "prealloc" :: which :: n :: form =>
+    if (which == "s" || which == "o") && n.toNat?.isSome && (form == [] || form == ["m"] || form == ["f"]) then (s, "ok")
+    else (s, "bad-op")
   | ["pause"] => (if s.cfg.pausable then { s with recording := false } else s, "ok")
   | ["cont"] => (if s.cfg.pausable then { s with recording := true } else s, "ok")
   | ["nr"] => (newRec s, "ok")
@@ -117,6 +122,44 @@ def stepInt (s : St) (ws : List String) : St × String :=
     | none => (s, exc .unknown_handle)
   | ["dep", k] => match k.toNat?.bind s.var? with
     | some x => ({ s with dep := s.dep ++ [x.idx] }, "ok")
+    | none => (s, exc .unknown_handle)
+  -- pointer-and-count forms `Stack::independent(const A* x, n)` / `dependent(const A* x, n)`; n = 0 is allowed
+  | "indepn" :: hs => match hs.mapM (fun h => h.toNat?.bind s.var?) with
+    | some xs => (s.independentN (xs.map (·.idx)), "ok")
+    | none => (s, exc .unknown_handle)
+  | "depn" :: hs => match hs.mapM (fun h => h.toNat?.bind s.var?) with
+    | some xs => (s.dependentN (xs.map (·.idx)), "ok")
+    | none => (s, exc .unknown_handle)
+  -- free functions on arrays of Active (Active.h): set_gradients / get_gradients / set_values / get_values
+  | "setgn" :: rest =>
+    let rec gpairs : List String → Option (List (Nat × Int))
+      | [] => some []
+      | h :: v :: tl => match h.toNat?.bind s.var?, v.toInt?, gpairs tl with
+        | some x, some v, some ps => some ((x.idx, v) :: ps)
+        | _, _, _ => none
+      | [_] => none
+    match gpairs rest with
+    | some ps => match s.seedN ps with
+      | (s', none) => (s', "ok")
+      | (s', some e) => (s', exc e)
+    | none => (s, exc .unknown_handle)
+  | "getgn" :: hs => match hs.mapM (fun h => h.toNat?.bind s.var?) with
+    | some xs => match s.getGradN (xs.map (·.idx)) with
+      | .ok gs => (s, "G" ++ String.join (gs.map fun g => s!" {g}"))
+      | .error e => (s, exc e)
+    | none => (s, exc .unknown_handle)
+  | "setvn" :: rest =>
+    let rec vpairs : List String → Option (List (Nat × Int))
+      | [] => some []
+      | h :: v :: tl => match h.toNat?, v.toInt?, vpairs tl with
+        | some h, some v, some ps => if (s.var? h).isSome then some ((h, v) :: ps) else none
+        | _, _, _ => none
+      | [_] => none
+    match vpairs rest with
+    | some ps => (s.setValuesN ps, "ok")
+    | none => (s, exc .unknown_handle)
+  | "getvn" :: hs => match hs.mapM (fun h => h.toNat?.bind s.var?) with
+    | some xs => (s, "V" ++ String.join (xs.map fun x => s!" {x.val}"))
     | none => (s, exc .unknown_handle)
   | ["clri"] => ({ s with indep := [] }, "ok")
   | ["clrd"] => ({ s with dep := [] }, "ok")
@@ -213,6 +256,18 @@ def stepInt (s : St) (ws : List String) : St × String :=
       | _, _, _ => (s, "bad-op")
     else (s, "bad-op")
   | _ => (s, "bad-op")
+
+/-- statements whose target is an `ActiveReference` (an element of an active array): `operator=(const ActiveReference&)`,
+    `operator=(passive)`, `operator+= -= *=` with a passive right-hand side (ActiveReference.h) record what the same statements
+    on an `Active` record: `rasg k i` = `asg k v<i>`, `rsetp` = `setp`, `rcadd|rcsub|rcmul k c<y>` = `cadd|csub|cmul k c<y>` -/
+def stepIntR (s : St) (ws : List String) : St × String :=
+  match ws with
+  | ["rasg", k, i] => if i.toNat?.isSome then stepInt s ["asg", k, "v" ++ i] else (s, "bad-op")
+  | ["rsetp", k, v] => stepInt s ["setp", k, v]
+  | ["rcadd", k, o] => if o.startsWith "c" then stepInt s ["cadd", k, o] else (s, "bad-op")
+  | ["rcsub", k, o] => if o.startsWith "c" then stepInt s ["csub", k, o] else (s, "bad-op")
+  | ["rcmul", k, o] => if o.startsWith "c" then stepInt s ["cmul", k, o] else (s, "bad-op")
+  | _ => stepInt s ws
 
 /-! ### binary64 tapes (C02 / C13 law-free tie)
 
@@ -365,7 +420,7 @@ def step (s : XSt) (ws : List String) : XSt × String :=
       let (f, out) := stepF s.f ws
       ({ s with f := f }, out)
     else
-      let (b, out) := stepInt s.base ws
+      let (b, out) := stepIntR s.base ws
       ({ s with base := b }, out)
   | [] => (s, "bad-op")
 
